@@ -10,8 +10,11 @@
                                              description `{x} = #`; any depth)
 
   with insignificant decoration chosen per line by a `Decor`: blank and comment lines in front of the
-  line, indentation, blanks around the assignment character, trailing blanks and a trailing comment (behind a section
-  start or end also directly, without blank).
+  line, indentation, blanks (blank, tab, vertical tab, form feed, carriage return) around the assignment character,
+  trailing blanks and a trailing comment (behind a section start or end also directly, without blank); a node
+  without value and children may be written as an empty section (start line + end line) instead of `name=`;
+  behind the last element blank and comment lines and a last line without line feed may follow (`endText`).
+  Names are restricted by two flag words (`nameFits`, `forestFits`).
   Values are written plain when that is unambiguous and in double quotes (quotes inside escaped by a
   backslash, backslashes at the very end put behind the closing quote) otherwise.
 
